@@ -19,7 +19,8 @@ Clauses(pre, e) ==
     (IF Len(txs) = 1 /\ ~HasFlag(e.flags, ValidationFinishedFlag) /\ ~OnlySigner(pre, post, txs[1]) THEN {"OnlySigner"} ELSE {}) \cup
     (IF ~NoDouble(applied, txs) THEN {"NoDouble"} ELSE {}) \cup
     (IF ~Consecutive(pre, txs) THEN {"Consecutive"} ELSE {}) \cup
-    (IF ~EpochMatch(pre, txs) THEN {"EpochMatch"} ELSE {})
+    (IF ~EpochMatch(pre, txs) THEN {"EpochMatch"} ELSE {}) \cup
+    (IF ~HasFlag(e.flags, ValidationFinishedFlag) /\ ~NonceRecorded(pre, post, txs) THEN {"NonceRecorded"} ELSE {})
 
 RECURSIVE Report(_, _)
 Report(S, line) == IF S = {} THEN TRUE
